@@ -919,6 +919,26 @@ example : ReqAlive { limit := some 6, thr := some 3, store := false } ⟨.none, 
     [(false, .headers (.known 1) false), (false, .data [0x61]), (false, .eom), (true, .headers (.known 8) false)] := by
   simp [ReqAlive, stepX, step, check, expectedSize, exceeds]
 
+/-- **upload_unaffected_by_response_timing.** Two histories of an exchange with the same request events, in which the
+    (same or different) response arrives at different moments — before, in the middle of, or after the request body — and
+    is not refused: the request side delivers exactly the same outputs (every streamed chunk, the end of the message)
+    and ends in the same state.  In particular a response that completes early does not cut the upload short. -/
+theorem upload_unaffected_by_response_timing (rq rs rs' : Side) (evs evs' : List (Bool × Ev))
+    (hsame : evsOf false evs = evsOf false evs')
+    (h : RespAlive o rq rs {} evs) (h' : RespAlive o rq rs' {} evs') :
+    outsOf false (runX o rq rs {} evs).2 = outsOf false (runX o rq rs' {} evs').2 ∧
+    (runX o rq rs {} evs).1.req = (runX o rq rs' {} evs').1.req := by
+  obtain ⟨a1, a2⟩ := request_side_independent o rq rs {} evs h
+  obtain ⟨b1, b2⟩ := request_side_independent o rq rs' {} evs' h'
+  rw [a1, a2, b1, b2, hsame]
+  exact ⟨rfl, rfl⟩
+
+-- non-vacuity: a streamed upload with the complete response arriving after the first chunk
+example : outsOf false (runX { limit := none, thr := some 1, store := false } ⟨.none, fun d => .one d⟩ ⟨.none, fun d => .one d⟩ {}
+    [(false, .headers .unknown false), (false, .data [1, 2]), (true, .headers (.known 1) false), (true, .data [9]), (true, .eom),
+     (false, .data [3]), (false, .eom)]).2
+    = [.hookHeaders, .sendHead, .sendData [1, 2], .sendData [3], .hookMsg, .sendEnd] := by decide
+
 /-! ### parse_size -/
 
 /-- the regenerated SIZE_UNITS table is b,k,m,g,t = 1024^0..4 -/
